@@ -87,22 +87,32 @@ Section Sized.
     destruct Hs; auto.
   Qed.
 
-  Lemma tx_sol_ok dest r buf : sol_resp r -> obs_ok (OTx dest (response_bytes r buf)).
+  (* the request handlers transmit solicited responses only *)
+  Definition sobs_ok (o : oobs) : Prop :=
+    match o with OTx d b => exists r buf, b = response_bytes r buf /\ sol_resp r | _ => True end.
+
+  Lemma sobs_obs o : Forall sobs_ok o -> Forall obs_ok o.
+  Proof. apply Forall_impl. intros [] H; try exact I. destruct H as (r & buf & H1 & H2). exists r, buf. auto. Qed.
+
+  Lemma no_tx_sobs_ok o : Forall no_tx o -> Forall sobs_ok o.
+  Proof. apply Forall_impl. intros [] H; try exact I. destruct H. Qed.
+
+  Lemma tx_sol_ok dest r buf : sol_resp r -> sobs_ok (OTx dest (response_bytes r buf)).
   Proof. intros H. exists r, buf. auto. Qed.
 
   Lemma one_tx_ok pre dest r buf post :
     Forall no_tx pre -> Forall no_tx post -> sol_resp r ->
-    Forall obs_ok (pre ++ OTx dest (response_bytes r buf) :: post).
+    Forall sobs_ok (pre ++ OTx dest (response_bytes r buf) :: post).
   Proof.
-    intros H1 H2 H3. apply Forall_app. split; [apply no_tx_obs_ok; exact H1|].
-    constructor; [apply tx_sol_ok; exact H3 | apply no_tx_obs_ok; exact H2].
+    intros H1 H2 H3. apply Forall_app. split; [apply no_tx_sobs_ok; exact H1|].
+    constructor; [apply tx_sol_ok; exact H3 | apply no_tx_sobs_ok; exact H2].
   Qed.
 
   (* the write-the-response tail of handle_one_request_from_idle *)
   Lemma hfi_finish_IA from seq bytes fn s1 resp se rep o1 s' o :
     IA s1 -> Forall no_tx o1 -> (forall r, resp = Some r -> sol_resp r) ->
     hfi_finish cfg from seq bytes fn s1 resp se rep o1 = (s', o) ->
-    IA s' /\ Forall obs_ok o.
+    IA s' /\ Forall sobs_ok o.
   Proof.
     intros [[I1 I2] I3] Ho1 Hr H. destruct resp as [r|].
     - apply hfi_finish_some in H.
@@ -113,17 +123,17 @@ Section Sized.
       + intros l r0 Hl Hr0. rewrite H6 in Hl. inversion Hl; subst. cbn in Hr0. inversion Hr0; subst. exact Hr'.
       + destruct H8 as [H8|[x H8]]; rewrite H8; [exact I2|exact I].
       + eapply ans_ok_suffix; [|exact I3]. eapply ans_suffix_trans; [apply sc_ans; exact H1|apply sa_ans; exact H7].
-      + subst o. constructor; [exact I|]. apply Forall_app. split; [apply no_tx_obs_ok; exact Ho1|].
+      + subst o. constructor; [exact I|]. apply Forall_app. split; [apply no_tx_sobs_ok; exact Ho1|].
         apply one_tx_ok; assumption.
     - rewrite hfi_finish_none in H. inversion H; subst. split; [split; [split|]|].
       + cbn. intros l r0 Hl Hr0. inversion Hl; subst. discriminate.
       + exact I2.
       + exact I3.
-      + constructor; [exact I|]. apply no_tx_obs_ok; exact Ho1.
+      + constructor; [exact I|]. apply no_tx_sobs_ok; exact Ho1.
   Qed.
 
   Lemma write_error_response_IA s from bc sq s1 o :
-    IA s -> write_error_response s from bc sq = (s1, o) -> IA s1 /\ Forall obs_ok o.
+    IA s -> write_error_response s from bc sq = (s1, o) -> IA s1 /\ Forall sobs_ok o.
   Proof.
     intros HI H. apply write_error_response_spec in H. destruct H as [H1 H2].
     split; [eapply IA_sc; eassumption|].
@@ -143,7 +153,7 @@ Section Sized.
   Qed.
 
   Lemma handle_from_idle_IA s from bc bytes d fid s' o :
-    IA s -> handle_from_idle cfg s from bc bytes d fid = (s', o) -> IA s' /\ Forall obs_ok o.
+    IA s -> handle_from_idle cfg s from bc bytes d fid = (s', o) -> IA s' /\ Forall sobs_ok o.
   Proof.
     intros HI. rewrite handle_from_idle_eq. destruct (to_treq cfg from d) as [|sq|ctl fn obj].
     - intros H; inversion H; subst. split; [exact HI|constructor].
@@ -178,7 +188,7 @@ Section Sized.
       + destruct (process_broadcast cfg s m fid ctl fn bytes obj) as [s1 o1] eqn:E.
         apply process_broadcast_spec in E. destruct E as [E1 E2].
         intros H; inversion H; subst. split; [eapply IA_sc; eassumption|].
-        constructor; [exact I|]. apply no_tx_obs_ok; exact E2.
+        constructor; [exact I|]. apply no_tx_sobs_ok; exact E2.
       + intros H; inversion H; subst. split; [exact HI|]. repeat constructor.
       + intros H; inversion H; subst. split; [exact HI|]. repeat constructor.
   Qed.
@@ -219,7 +229,7 @@ Section Sized.
   Qed.
 
   Lemma write_solicited_IA s dest r s1 r1 o :
-    IA s -> sol_resp r -> write_solicited s dest r = (s1, r1, o) -> IA s1 /\ sol_resp r1 /\ Forall obs_ok o.
+    IA s -> sol_resp r -> write_solicited s dest r = (s1, r1, o) -> IA s1 /\ sol_resp r1 /\ Forall sobs_ok o.
   Proof.
     intros HI Hr H. apply write_solicited_spec in H. destruct H as (E1 & (pre & E2 & E3) & E4 & E5 & E6 & E7).
     assert (Hr1 : sol_resp r1) by (eapply sol_sent; [exact (conj E4 (conj E5 (conj E6 E7)))|exact Hr]).
@@ -254,7 +264,7 @@ Section Sized.
   Qed.
 
   Lemma unsol_wait_fragment_IA s resp from bc bytes d fid s' res o :
-    IA s -> unsol_wait_fragment cfg s resp from bc bytes d fid = (s', res, o) -> IA s' /\ Forall obs_ok o.
+    IA s -> unsol_wait_fragment cfg s resp from bc bytes d fid = (s', res, o) -> IA s' /\ Forall sobs_ok o.
   Proof.
     intros HI. unfold unsol_wait_fragment. destruct (to_treq cfg from d) as [|sq|ctl fn obj].
     - intros H; inversion H; subst. split; [exact HI|constructor].
@@ -274,17 +284,17 @@ Section Sized.
           apply write_solicited_IA in E3; [|exact HI1|exact E]. destruct E3 as (F1 & F2 & F3).
           intros H; inversion H; subst. split.
           -- apply IA_upd_last; [exact F1|]. intros r2 Hr2; inversion Hr2; subst; exact F2.
-          -- apply Forall_app. split; [apply no_tx_obs_ok; exact E2|exact F3].
+          -- apply Forall_app. split; [apply no_tx_sobs_ok; exact E2|exact F3].
         * intros H; inversion H; subst. split.
           -- apply IA_upd_last; [exact HI1|]. discriminate.
-          -- apply Forall_app. split; [apply no_tx_obs_ok; exact E2|constructor].
+          -- apply Forall_app. split; [apply no_tx_sobs_ok; exact E2|constructor].
       + intros H; inversion H; subst. split; [exact HI|].
         destruct last as [r|]; [|constructor].
         destruct (classify_repeat_last _ _ _ _ _ _ _ _ Ecl eq_refl) as (l & Hl1 & Hl2).
         constructor; [|constructor]. apply tx_sol_ok. exact (proj1 (proj1 HI) l r Hl1 Hl2).
       + destruct (process_broadcast cfg (upd_deferred s None) m fid ctl fn bytes obj) as [s1 o1] eqn:E.
         apply process_broadcast_spec in E. destruct E as [E1 E2].
-        intros H; inversion H; subst. split; [eapply IA_sc; [exact E1|exact HI]|apply no_tx_obs_ok; exact E2].
+        intros H; inversion H; subst. split; [eapply IA_sc; [exact E1|exact HI]|apply no_tx_sobs_ok; exact E2].
       + intros H; inversion H; subst. split; [|constructor].
         destruct (s_last_bcast s) as [[]|]; exact HI.
       + destruct (q =? ctl_seq (r_ctl resp)); intros H; inversion H; subst.
@@ -339,7 +349,7 @@ Section Sized.
   Qed.
 
   Lemma handle_deferred_IA s ns s' o :
-    IA s -> handle_deferred cfg s ns = (s', o) -> IA s' /\ Forall obs_ok o.
+    IA s -> handle_deferred cfg s ns = (s', o) -> IA s' /\ Forall sobs_ok o.
   Proof.
     intros HI H. destruct (s_deferred s) as [d|] eqn:Ed.
     - unfold handle_deferred in H. rewrite Ed in H.
@@ -357,8 +367,8 @@ Section Sized.
       apply write_solicited_IA in E3; [|exact HI2|exact Hr]. destruct E3 as (F1 & F2 & F3).
       assert (HI4 : IA (upd_last s3 (mk_last (df_seq d) (df_bytes d) (Some r') se))).
       { apply IA_upd_last; [exact F1|]. intros r0 Hr0; inversion Hr0; subst; exact F2. }
-      assert (Ho : Forall obs_ok (o1 ++ o2 ++ o3)).
-      { apply Forall_app. split; [apply no_tx_obs_ok; exact A2|]. apply Forall_app. split; [apply no_tx_obs_ok; exact B2|exact F3]. }
+      assert (Ho : Forall sobs_ok (o1 ++ o2 ++ o3)).
+      { apply Forall_app. split; [apply no_tx_sobs_ok; exact A2|]. apply Forall_app. split; [apply no_tx_sobs_ok; exact B2|exact F3]. }
       match type of H with (match ?x with Some _ => _ | None => _ end) = _ => destruct x as [x0|] end;
         inversion H; subst.
       + split; [apply IA_upd_control_wait; exact HI4|].
@@ -380,7 +390,7 @@ Section Sized.
                 end) as [s1 o1] eqn:E1.
       assert (H1 : IA s1 /\ Forall obs_ok o1).
       { destruct (s_pending s) as [[[[[from bc] bytes] d] fid]|].
-        - eapply handle_from_idle_IA; [|exact E1]. exact HI.
+        - destruct (handle_from_idle_IA _ _ _ _ _ _ _ _ HI E1) as [A B]. split; [exact A|apply sobs_obs; exact B].
         - inversion E1; subst. split; [exact HI|constructor]. }
       destruct H1 as [HI1 Ho1].
       destruct (s_control s1); [|inversion H; subst; split; assumption..].
@@ -395,7 +405,7 @@ Section Sized.
       + inversion H; subst. split; assumption.
       + destruct (s_pending s2) as [[[[[from bc] bytes] d] fid]|]; [|inversion H; subst; split; assumption].
         destruct (unsol_wait_fragment cfg (upd_pending s2 None) resp from bc bytes d fid) as [[s3 res] o3] eqn:E3.
-        apply unsol_wait_fragment_IA in E3; [|exact HI2]. destruct E3 as [HI3 Ho3].
+        apply unsol_wait_fragment_IA in E3; [|exact HI2]. destruct E3 as [HI3 Ho3]. apply sobs_obs in Ho3.
         destruct res as [r|]; [|inversion H; subst; split; [assumption|apply Forall_app; tauto]].
         destruct (end_unsol cfg s3 is_null r) as [[s4 ns4] o4] eqn:E4.
         apply end_unsol_IA in E4; [|exact HI3]. destruct E4 as [HI4 Ho4].
@@ -403,7 +413,7 @@ Section Sized.
         inversion H; subst. split; [tauto|]. repeat (apply Forall_app; split); tauto.
     - (* St3 *)
       destruct (handle_deferred cfg s ns) as [s3 o3] eqn:E3.
-      apply handle_deferred_IA in E3; [|exact HI]. destruct E3 as [HI3 Ho3].
+      apply handle_deferred_IA in E3; [|exact HI]. destruct E3 as [HI3 Ho3]. apply sobs_obs in Ho3.
       destruct (s_control s3); [|inversion H; subst; split; assumption..].
       destruct (idle_run f cfg (St4 ns) s3) as [s4 o4] eqn:E4. apply IH in E4; [|exact HI3].
       inversion H; subst. split; [tauto|apply Forall_app; tauto].
@@ -453,7 +463,7 @@ Section Sized.
   Qed.
 
   Lemma sol_wait_fragment_ok s se dl from bc bytes d oc o :
-    IA s -> sol_wait_fragment cfg s se dl from bc bytes d = (oc, o) -> Forall obs_ok o.
+    IA s -> sol_wait_fragment cfg s se dl from bc bytes d = (oc, o) -> Forall sobs_ok o.
   Proof.
     intros HI. unfold sol_wait_fragment. destruct (to_treq cfg from d) as [|sq|ctl fn obj].
     - intros H; inversion H; subst. constructor.
@@ -474,7 +484,7 @@ Section Sized.
     destruct (s_control (upd_frame_id s fid)) as [|se dl r|resp is_null retries dl] eqn:Ec.
     - apply idle_loop_IA. exact HI0.
     - destruct (sol_wait_fragment cfg (upd_frame_id s fid) se dl from bc bytes d) as [oc o1] eqn:E1.
-      pose proof (sol_wait_fragment_ok _ _ _ _ _ _ _ _ _ HI0 E1) as Ho1.
+      pose proof (sol_wait_fragment_ok _ _ _ _ _ _ _ _ _ HI0 E1) as Ho1. apply sobs_obs in Ho1.
       destruct oc as [dl'|respond_to|].
       + intros H; inversion H; subst. split; [apply IA_upd_control_wait; exact HI0|exact Ho1].
       + destruct (se_fin se).
@@ -492,7 +502,7 @@ Section Sized.
             exists c, e, b. split; [exact B5|].
             destruct B6 as [[rest B6]|B6]; [left; cbn in B6; cbn; rewrite B6; left; reflexivity|right; exact B6]. }
           destruct (write_solicited s2 respond_to rsp) as [[s3 rsp'] o3] eqn:E3.
-          apply write_solicited_IA in E3; [|exact HI2|exact Hr]. destruct E3 as (F1 & F2 & F3).
+          apply write_solicited_IA in E3; [|exact HI2|exact Hr]. destruct E3 as (F1 & F2 & F3). apply sobs_obs in F3.
           match goal with |- context [upd_last s3 ?x] => set (nl := x) end.
           assert (HI4 : IA (upd_last s3 nl)).
           { destruct F1 as [[I1 I2] I3]. split; [split|]; [|exact I2|exact I3].
@@ -514,7 +524,7 @@ Section Sized.
         intros H; inversion H; subst. split; [tauto|]. apply Forall_app. split; [exact Ho1|].
         constructor; [exact I|tauto].
     - destruct (unsol_wait_fragment cfg (upd_frame_id s fid) resp from bc bytes d fid) as [[s1 res] o1] eqn:E1.
-      apply unsol_wait_fragment_IA in E1; [|exact HI0]. destruct E1 as [HI1 Ho1].
+      apply unsol_wait_fragment_IA in E1; [|exact HI0]. destruct E1 as [HI1 Ho1]. apply sobs_obs in Ho1.
       destruct res as [r|]; [|intros H; inversion H; subst; split; assumption].
       destruct (end_unsol cfg s1 is_null r) as [[s2 ns] o2] eqn:E2.
       apply end_unsol_IA in E2; [|exact HI1]. destruct E2 as [HI2 Ho2].
